@@ -26,7 +26,15 @@ type propertyDef struct {
 
 var properties = map[string]*propertyDef{}
 
-func register(p *propertyDef) { properties[p.ID] = p }
+func register(p *propertyDef) {
+	run := p.Run
+	id := p.ID
+	p.Run = func(w *World, r *Report) {
+		run(w, r)
+		ruleErrorDisciplineScoped(w, r, id)
+	}
+	properties[p.ID] = p
+}
 
 var commonAssumptions = []string{
 	"the structural clauses checked are necessary conditions of the property; holding all of them does not prove the property (value clauses are listed as not decided in DESIGN.md section 5)",
